@@ -111,6 +111,12 @@ class StmtMixin:
                 continue
             for t in s.targets:
                 self.bind_target(t, oc.value, s2, s.lineno)
+                if isinstance(t, ast.Name) and self.contract is not None and self.inline_depth == 0 \
+                        and t.id in self.contract.after_assign:
+                    for (label, expr) in self.contract.after_assign[t.id]:
+                        g_ = self.spec_bool(expr, s2)
+                        self.oblig(s2, f"assert-after@{s.lineno}", g_, s.lineno, label=label, cls="H")
+                        s2.assume(g_)
             out.append((s2, Outcome(NORMAL)))
         return out
 
